@@ -4,8 +4,8 @@ From Coq Require Import ZArith Bool Ascii String.
 From Coq Require Import List.
 Import ListNotations.
 From Verif Require Import Fmt.TextModel Fmt.TextProofs Fmt.X86FmtModel Fmt.X86FmtProofs Fmt.X86RegTableCheck.
-From Verif Require Import Fmt.X86InstModel Fmt.X86InstProofs Fmt.A64FmtModel Fmt.A64FmtProofs Fmt.A64InstProofs Fmt.LogLine Fmt.LogLineX86 Fmt.LogLineA64 Fmt.LabelVirt Fmt.DataNode Fmt.NodeLine Fmt.InstNamesCheck Fmt.Corollaries Fmt.NameDecode Fmt.X86Explain Fmt.RegList Fmt.RegListAll Fmt.VirtNames Fmt.FuncValue Fmt.LogOptions Fmt.Directives Fmt.A64Virt Fmt.SourceTablesCheck Fmt.FuncLine Fmt.X86VirtPhys Fmt.Transcript Fmt.A64VirtRead Fmt.A32Regs.
-From VerifGen Require Import X86RegTables InstNames InstNameTables FmtSourceTables X86ExplainTables.
+From Verif Require Import Fmt.X86InstModel Fmt.X86InstProofs Fmt.A64FmtModel Fmt.A64FmtProofs Fmt.A64InstProofs Fmt.LogLine Fmt.LogLineX86 Fmt.LogLineA64 Fmt.LabelVirt Fmt.DataNode Fmt.NodeLine Fmt.InstNamesCheck Fmt.Corollaries Fmt.NameDecode Fmt.X86Explain Fmt.RegList Fmt.RegListAll Fmt.VirtNames Fmt.FuncValue Fmt.LogOptions Fmt.Directives Fmt.A64Virt Fmt.SourceTablesCheck Fmt.FuncLine Fmt.X86VirtPhys Fmt.Transcript Fmt.A64VirtRead Fmt.A32Regs Fmt.LogInsts Fmt.Strict Fmt.EnumNames Fmt.StrictOps Fmt.EnvCheck Fmt.LogIndent Fmt.DataBytes Fmt.DomainCheck Fmt.FuncCheck Fmt.PlainLog Fmt.StrictSmall Fmt.NodeRead.
+From VerifGen Require Import X86RegTables InstNames InstNameTables FmtSourceTables X86ExplainTables FmtEnumTables.
 Local Open Scope Z_scope.
 
 (* String::_op_number: every 64-bit value, bases 2/8/10/16, every combination of the sign/space/alternate/signed flags and
@@ -453,3 +453,233 @@ Print Assumptions C20_a64_virt_reg_roundtrip.
 Theorem C20_a32_gp_roundtrip : forall id, id_ok id -> parse_a32_gp (a32_fmt_reg AGp32 id 0 None) = Some id.
 Proof. exact a32_gp_roundtrip. Qed.
 Print Assumptions C20_a32_gp_roundtrip.
+
+(* CAPSTONE of the property for whole logs: from the log of ANY sequence of emitted x86 instructions (every flag combination, any paddings, comments or
+   not) the proven readers recover the list of instructions (canon_inst: what a line can determine), the comments and - when no displacement was pending -
+   the emitted bytes.  The side conditions of C20_log_roundtrip on the instruction text are discharged (x86_text_ok). *)
+Theorem C20_x86_log_insts : forall f pad1 pad2 es, Forall (emitted_ok _ inst_ok) es ->
+  match parse_log (log_of pad1 pad2 (map (to_emission _ (fmt_inst f)) es)) with
+  | Some ls =>
+      read_insts _ parse_inst ls = Some (map (fun e => canon_inst (m_inst _ e)) es) /\
+      map (fun l => snd l) ls = map (m_comment _) es /\
+      (Forall (fun e => m_rel _ e = 0%nat) es ->
+       columns_bytes (map (fun l => snd (fst l)) ls) = Some (map Some (concat (map (m_bytes _) es))))
+  | None => False
+  end.
+Proof. exact x86_log_insts. Qed.
+Print Assumptions C20_x86_log_insts.
+
+Theorem C20_a64_log_insts : forall f pad1 pad2 es, Forall (emitted_ok _ a64_inst_ok) es ->
+  match parse_log (log_of pad1 pad2 (map (to_emission _ (a64_fmt_inst true f)) es)) with
+  | Some ls =>
+      read_insts _ parse_a64_inst ls = Some (map (fun e => a64_canon_inst (m_inst _ e)) es) /\
+      map (fun l => snd l) ls = map (m_comment _) es /\
+      (Forall (fun e => m_rel _ e = 0%nat) es ->
+       columns_bytes (map (fun l => snd (fst l)) ls) = Some (map Some (concat (map (m_bytes _) es))))
+  | None => False
+  end.
+Proof. exact a64_log_insts. Qed.
+Print Assumptions C20_a64_log_insts.
+
+(* the OTHER direction of the readers: the register readers accept only texts that are the print of what they return (no junk reads as a register) *)
+Theorem C20_reg_readers_sound :
+  (forall x t i, parse_reg_name x = Some (t, i) -> fmt_reg t i = x) /\
+  (forall x t i et, parse_a64_reg x = Some (t, i, et) -> a64_reg_text t i et = x).
+Proof. exact (conj parse_reg_name_sound parse_a64_reg_sound). Qed.
+Print Assumptions C20_reg_readers_sound.
+
+(* strict readers (proven reader + canonical re-print) accept EXACTLY the prints: register lists are a bijection between the masks below 2^16 and the
+   accepted texts; for operands and lines of both architectures every accepted text is the print of the value returned, and the print of every canonical
+   well-formed value is accepted and read as itself *)
+Theorem C20_reglist_strict_exact :
+  (forall m, 0 <= m < 65536 -> strict_reglist (fmt_reglist a32_reg m) = Some m) /\
+  (forall x m, strict_reglist x = Some m -> x = fmt_reglist a32_reg m).
+Proof. exact strict_reglist_exact. Qed.
+Print Assumptions C20_reglist_strict_exact.
+
+Theorem C20_x86_strict_exact : forall f,
+  (forall x o, strict_operand f x = Some o -> fmt_operand f o = x) /\
+  (forall o, op_ok o -> canon_op o = o -> strict_operand f (fmt_operand f o) = Some o) /\
+  (forall x i, strict_inst f x = Some i -> fmt_inst f i = x) /\
+  (forall i, inst_ok i -> canon_inst i = i -> strict_inst f (fmt_inst f i) = Some i).
+Proof. exact strict_x86_exact. Qed.
+Print Assumptions C20_x86_strict_exact.
+
+Theorem C20_a64_strict_exact : forall f,
+  (forall x o, strict_a64_operand f x = Some o -> a64_fmt_operand true f o = x) /\
+  (forall o, a64_op_ok o -> a64_canon_op o = o -> strict_a64_operand f (a64_fmt_operand true f o) = Some o) /\
+  (forall x i, strict_a64_inst f x = Some i -> a64_fmt_inst true f i = x) /\
+  (forall i, a64_inst_ok i -> a64_canon_inst i = i -> strict_a64_inst f (a64_fmt_inst true f i) = Some i).
+Proof. exact strict_a64_exact. Qed.
+Print Assumptions C20_a64_strict_exact.
+
+(* the side condition "a memory operand is the last operand" of C20_a64_inst_roundtrip is necessary: an operand behind a memory operand prints exactly
+   like a post-index ("ldr x0, [x1], 8" is both) *)
+Theorem C20_a64_mem_not_last_refuted :
+  a64_fmt_inst true f00 {| ai_mnem := s "ldr"; ai_cond := 0; ai_ops := [AOReg AGp64 0 0 None; AOMem (mem_x1 0 0); AOImm 8 0] |} =
+  a64_fmt_inst true f00 {| ai_mnem := s "ldr"; ai_cond := 0; ai_ops := [AOReg AGp64 0 0 None; AOMem (mem_x1 2 8)] |}.
+Proof. exact a64_mem_not_last_witness. Qed.
+Print Assumptions C20_a64_mem_not_last_refuted.
+
+(* names printed for enumerators (per run, T): for EVERY id the real function was evaluated on (coq/gen/FmtEnumTables.v: error codes 0..max+2, CPU features of
+   x86 and ARM 0..max+2, all 256 type ids) the text is the enumerator's own identifier under the Coq rule (strip "k"; type ids also lower-cased and "x1"
+   dropped), and "<Unknown>" where the Error / CpuFeatures enums (read raw from the headers) have no enumerator *)
+Theorem C20_enum_names :
+  (forall k x, nth_error dump_errors k = Some x ->
+     x = match lookup (Z.of_nat k) enum_errors with Some n => ident_rule n | None => s "<Unknown>" end) /\
+  (forall k x, nth_error dump_features_x86 k = Some x ->
+     x = match lookup (Z.of_nat k) enum_features_x86 with Some n => ident_rule n | None => s "<Unknown>" end) /\
+  (forall k x, nth_error dump_features_arm k = Some x ->
+     x = match lookup (Z.of_nat k) enum_features_arm with Some n => ident_rule n | None => s "<Unknown>" end) /\
+  (forall id n, In (id, n) enum_types -> 0 <= id /\ nth_error dump_types (Z.to_nat id) = Some (type_rule n)).
+Proof. exact enum_names_sound. Qed.
+Print Assumptions C20_enum_names.
+
+(* frame condition: what canon_op / canon_inst forget is never printed - an instruction and its canonical form print alike (x86: unconditionally, every
+   option word, extra register and operand list; AArch64: for well-formed lines) *)
+Theorem C20_print_canon_invariant :
+  (forall f i, fmt_inst f (canon_inst i) = fmt_inst f i) /\ (forall f o, fmt_operand f (canon_op o) = fmt_operand f o) /\
+  (forall f i, a64_inst_ok i -> a64_fmt_inst true f (a64_canon_inst i) = a64_fmt_inst true f i) /\
+  (forall f o, a64_op_ok o -> a64_fmt_operand true f (a64_canon_op o) = a64_fmt_operand true f o).
+Proof. exact (conj fmt_inst_canon (conj fmt_operand_canon (conj a64_fmt_inst_canon a64_fmt_operand_canon))). Qed.
+Print Assumptions C20_print_canon_invariant.
+
+(* hence the strict readers are COMPLETE on every well-formed value (the "canonical" hypothesis of C20_x86_strict_exact / C20_a64_strict_exact is
+   discharged): the print of any well-formed operand / line is accepted and read as its canonical form; with soundness: the accepted texts are exactly
+   the prints *)
+Theorem C20_strict_complete :
+  (forall f o, op_ok o -> strict_operand f (fmt_operand f o) = Some (canon_op o)) /\
+  (forall f i, inst_ok i -> strict_inst f (fmt_inst f i) = Some (canon_inst i)) /\
+  (forall f o, a64_op_ok o -> strict_a64_operand f (a64_fmt_operand true f o) = Some (a64_canon_op o)) /\
+  (forall f i, a64_inst_ok i -> strict_a64_inst f (a64_fmt_inst true f i) = Some (a64_canon_inst i)).
+Proof. exact (conj strict_operand_complete (conj strict_inst_complete (conj strict_a64_operand_complete strict_a64_inst_complete))). Qed.
+Print Assumptions C20_strict_complete.
+
+(* the hypotheses of the virtual-register theorems are decidable: the check evaluates env_okb / env_ok64b on the environments it really uses, so
+   C20_x86_virt_names_roundtrip and C20_a64_virt_reg_roundtrip apply to them without an unchecked premise *)
+Theorem C20_env_checks_sound : (forall env, env_okb env = true -> env_ok env) /\ (forall env, env_ok64b env = true -> env_ok64 env).
+Proof. exact (conj env_okb_sound env_ok64b_sound). Qed.
+Print Assumptions C20_env_checks_sound.
+
+(* equal logs come from equal programs: two sequences of emitted x86 instructions whose logs are the same text have the same instructions (up to
+   canon_inst) and the same comments *)
+Theorem C20_x86_log_injective : forall f pad1 pad2 es1 es2, Forall (emitted_ok _ inst_ok) es1 -> Forall (emitted_ok _ inst_ok) es2 ->
+  log_of pad1 pad2 (map (to_emission _ (fmt_inst f)) es1) = log_of pad1 pad2 (map (to_emission _ (fmt_inst f)) es2) ->
+  map (fun e => canon_inst (m_inst _ e)) es1 = map (fun e => canon_inst (m_inst _ e)) es2 /\ map (m_comment _) es1 = map (m_comment _) es2.
+Proof. exact x86_log_injective. Qed.
+Print Assumptions C20_x86_log_injective.
+
+(* per run (T): every type name of the TypeId enum but "void" (kVoid) satisfies what the FuncNode-line theorems ask of a type name - no ' ', ',' or '@' in it
+   and it is not "void" - so C20_x86_func_line_roundtrip / C20_a64_func_line_roundtrip apply to every type format_type_id can print *)
+Theorem C20_type_names_fit_func_lines : forall id n, In (id, n) enum_types -> id <> 0 ->
+  Forall clean (type_rule n) /\ Forall (fun c => Ascii.eqb c at_c = false) (type_rule n) /\ type_rule n <> s "void".
+Proof. exact (type_names_fit_sound enum_types enum_type_names_fit). Qed.
+Print Assumptions C20_type_names_fit_func_lines.
+
+(* the whole-log capstone for ANY code indentation (Logger::set_indentation, FormatIndentationGroup::kCode): every line gives back its indentation and its
+   instruction; comments and bytes as in C20_x86_log_insts.  x86-64 and AArch64 *)
+Theorem C20_x86_log_insts_indented : forall f indent pad1 pad2 es, Forall (emitted_ok _ inst_ok) es ->
+  match parse_log (log_of pad1 pad2 (map (to_emission _ (itxt _ (fmt_inst f) indent)) es)) with
+  | Some ls =>
+      read_insts _ (ird _ parse_inst) ls = Some (map (fun e => (indent, canon_inst (m_inst _ e))) es) /\
+      map (fun l => snd l) ls = map (m_comment _) es /\
+      (Forall (fun e => m_rel _ e = 0%nat) es ->
+       columns_bytes (map (fun l => snd (fst l)) ls) = Some (map Some (concat (map (m_bytes _) es))))
+  | None => False
+  end.
+Proof. exact x86_log_insts_indented. Qed.
+Print Assumptions C20_x86_log_insts_indented.
+
+Theorem C20_a64_log_insts_indented : forall f indent pad1 pad2 es, Forall (emitted_ok _ a64_inst_ok) es ->
+  match parse_log (log_of pad1 pad2 (map (to_emission _ (itxt _ (a64_fmt_inst true f) indent)) es)) with
+  | Some ls =>
+      read_insts _ (ird _ parse_a64_inst) ls = Some (map (fun e => (indent, a64_canon_inst (m_inst _ e))) es) /\
+      map (fun l => snd l) ls = map (m_comment _) es /\
+      (Forall (fun e => m_rel _ e = 0%nat) es ->
+       columns_bytes (map (fun l => snd (fst l)) ls) = Some (map Some (concat (map (m_bytes _) es))))
+  | None => False
+  end.
+Proof. exact a64_log_insts_indented. Qed.
+Print Assumptions C20_a64_log_insts_indented.
+
+(* two more formatter tables over their WHOLE domain (per run, T; harness DS2): the size words an x86 memory operand prints in front of '[' for every size
+   0..255 ("byte ptr " ... "zmmword ptr ", nothing for the other 247 sizes) and the AArch64 vector register text for every element type 0..7 on a 64-bit and a
+   128-bit vector register are what the model prints *)
+Theorem C20_source_small_tables2 :
+  (forall k x, nth_error src_size_prefixes k = Some x -> render (size_toks (Z.of_nat k)) = x) /\
+  (forall k x, nth_error src_vec64 k = Some x -> a64_reg_text AVec64 3 (Z.of_nat k) = x) /\
+  (forall k x, nth_error src_vec128 k = Some x -> a64_reg_text AVec128 3 (Z.of_nat k) = x) /\
+  length src_size_prefixes = 256%nat /\ length src_vec64 = 8%nat /\ length src_vec128 = 8%nat.
+Proof. exact (small_tables2_sound _ _ _ source_small_tables2_ok). Qed.
+Print Assumptions C20_source_small_tables2.
+
+(* an embedded-data line DENOTES ITS BYTES: for every byte string whose length is a multiple of the item size (1, 2, 4, 8), on x86 and AArch64 directive words,
+   with any repeat count, the items the proven reader recovers from the text of Formatter::format_data, laid out little-endian in the item size and repeated,
+   are exactly the embedded bytes (C20_data_roundtrip recovered the items; this closes the step to the bytes that python recomputed) *)
+Theorem C20_data_line_denotes_bytes : forall a64 size bytes rep, (size = 1 \/ size = 2 \/ size = 4 \/ size = 8) -> Forall byte bytes ->
+  (exists k, length bytes = (k * Z.to_nat size)%nat) -> 1 <= rep < two32 ->
+  exists items, parse_data (fmt_data a64 size bytes rep) = Some (rep, "."%char :: s (data_word a64 size), items) /\
+                data_bytes (Z.to_nat size) items (Z.to_nat rep) = concat (repeat bytes (Z.to_nat rep)).
+Proof. exact data_line_denotes. Qed.
+Print Assumptions C20_data_line_denotes_bytes.
+
+(* the domains of the line theorems are decidable: inst_okb / a64_inst_okb are sound for inst_ok / a64_inst_ok.  The driver evaluates them on every
+   command whose text does not read back, so "outside the domain of the theorem" is a proven-sound verdict, not python's classification *)
+Theorem C20_domain_checks_sound : (forall i, inst_okb i = true -> inst_ok i) /\ (forall i, a64_inst_okb i = true -> a64_inst_ok i) /\
+  (forall o, op_vis_okb o = true -> op_vis_ok o) /\ (forall o, a64_op_okb o = true -> a64_op_ok o).
+Proof. exact (conj inst_okb_sound (conj a64_inst_okb_sound (conj op_vis_okb_ok a64_op_okb_ok))). Qed.
+Print Assumptions C20_domain_checks_sound.
+
+(* the premises of the FuncNode-line theorems are decidable; the driver evaluates them on every line it reads, so C20_x86_func_line_roundtrip /
+   C20_a64_func_line_roundtrip apply to those lines without an unchecked premise *)
+Theorem C20_func_line_checks_sound :
+  (forall ret args, x86_func_line_okb ret args = true ->
+     match ret with Some v => lvalue_ok _ x86_reg_okP v | None => True end /\ Forall (arg_ok _ x86_reg_okP) args) /\
+  (forall ret args, a64_func_line_okb ret args = true ->
+     match ret with Some v => lvalue_ok _ a64_reg_okP v | None => True end /\ Forall (arg_ok _ a64_reg_okP) args).
+Proof. exact (conj x86_func_line_okb_sound a64_func_line_okb_sound). Qed.
+Print Assumptions C20_func_line_checks_sound.
+
+(* logs WITHOUT kMachineCode (the default flags of a Logger): a whole log splits into its lines, every line into the instruction text and its optional comment,
+   and the proven line readers recover the instruction list; x86-64 and AArch64, every flag combination, any paddings *)
+Theorem C20_plain_log_roundtrip : forall pad1 pad2 es, Forall plain_ok es ->
+  parse_plain_log (plain_log_of pad1 pad2 es) = Some (map (fun e => (q_text e, opt_comment (q_comment e))) es).
+Proof. exact plain_log_roundtrip. Qed.
+Print Assumptions C20_plain_log_roundtrip.
+
+Theorem C20_x86_plain_log_insts : forall f pad1 pad2 (es : list (x86inst * text)), Forall (fun e => inst_ok (fst e) /\ Forall nonl (snd e)) es ->
+  match parse_plain_log (plain_log_of pad1 pad2 (map (fun e => {| q_text := fmt_inst f (fst e); q_comment := snd e |}) es)) with
+  | Some ls => traverse (fun l => parse_inst (fst l)) ls = Some (map (fun e => canon_inst (fst e)) es) /\
+               map (fun l => snd l) ls = map (fun e => opt_comment (snd e)) es
+  | None => False
+  end.
+Proof. exact x86_plain_log_insts. Qed.
+Print Assumptions C20_x86_plain_log_insts.
+
+Theorem C20_a64_plain_log_insts : forall f pad1 pad2 (es : list (a64inst * text)), Forall (fun e => a64_inst_ok (fst e) /\ Forall nonl (snd e)) es ->
+  match parse_plain_log (plain_log_of pad1 pad2 (map (fun e => {| q_text := a64_fmt_inst true f (fst e); q_comment := snd e |}) es)) with
+  | Some ls => traverse (fun l => parse_a64_inst (fst l)) ls = Some (map (fun e => a64_canon_inst (fst e)) es) /\
+               map (fun l => snd l) ls = map (fun e => opt_comment (snd e)) es
+  | None => False
+  end.
+Proof. exact a64_plain_log_insts. Qed.
+Print Assumptions C20_a64_plain_log_insts.
+
+(* the other direction for the small readers: parse_dec32 accepts only the canonical decimal of what it returns; the strict label / embed_label / align readers
+   accept exactly the prints ("L007" is read leniently as label 7 but is not a print) *)
+Theorem C20_small_readers_exact :
+  (forall x i, parse_dec32 x = Some i -> dec i = x) /\
+  (forall id, id_ok id -> strict_label (label_text id) = Some id) /\ (forall x id, strict_label x = Some id -> x = label_text id) /\
+  (forall a64 x p, strict_embed_label a64 x = Some p -> x = fmt_embed_label a64 (fst p) (snd p)) /\
+  (forall x p, strict_align x = Some p -> x = fmt_align_line (fst p) (snd p)).
+Proof.
+  exact (conj parse_dec32_sound (conj (proj1 strict_label_exact) (conj (proj2 strict_label_exact)
+        (conj (fun a64 => proj1 (proj2 (strict_directives_exact a64))) (proj2 (proj2 (proj2 (strict_directives_exact false)))))))).
+Qed.
+Print Assumptions C20_small_readers_exact.
+
+(* Builder nodes that are not instructions (Formatter::format_node): a bound label, .align, .section, embedded label and label delta, constant pool and
+   sentinel nodes read back from their text as the node (canon_node: the data size of an embedded label is not in the text) *)
+Theorem C20_node_body_roundtrip : forall f n, node_ok n -> parse_node_body (node_body f n) = Some (canon_node n).
+Proof. exact node_body_roundtrip. Qed.
+Print Assumptions C20_node_body_roundtrip.
